@@ -384,6 +384,10 @@ fn random_program(rng: &mut Rng, depth: u32) -> Vec<Node> {
     nodes
 }
 
+pub fn random_nodes(rng: &mut Rng) -> Vec<Node> {
+    random_program(rng, 3)
+}
+
 pub fn run(ctx: &Ctx) -> i32 {
     let max_arms = ctx.tier.pick(3usize, 5usize);
     let n_enum = enumerated(ctx, max_arms, true);
